@@ -340,16 +340,18 @@ theorem step_op (cfg : Cfg) (m : St) (n : Nat) (a : Ans) : step cfg m (.op n, a)
 
 theorem invokeOp_spec (a : Nat) :
     ⦃fun w => ⌜view cfg w = v⌝⦄ invokeOp a
-    ⦃post⟨fun x w => ⌜∃ d, view cfg w = { v with mon := opStep cfg v.mon (.value x d) }⌝,
-          fun e w => ⌜(e ≠ .stuck → ∃ d, view cfg w = { v with mon := opStep cfg v.mon (.raise e d) }) ∧
+    ⦃post⟨fun x w => ⌜view cfg w = { v with mon := opStep cfg v.mon (.value x 0) }⌝,
+          fun e w => ⌜(e ≠ .stuck → view cfg w = { v with mon := opStep cfg v.mon (.raise e 0) }) ∧
             (view cfg w).mon.opAfterFault = (v.mon.opAfterFault || v.mon.fault) ∧
             (view cfg w).mon.hookFault = v.mon.hookFault⌝⟩⦄ := by
   mvcgen [invokeOp, ask]
   all_goals ((try subst_vars) <;> (try intros) <;>
     first
       | (simp_all +zetaDelta [view, step_op]; done)
-      | (simp_all +zetaDelta [view, step_op, opStep, step]; done)
+      | (simp_all +zetaDelta [view, opStep, step]; done)
       | skip)
+
+@[simp] theorem view_as (cfg : Cfg) (w : World) (x : AState) : view cfg { w with as := x } = view cfg w := rfl
 
 /-! #### outcomes -/
 
@@ -420,7 +422,7 @@ end leaves
 
 attribute [local spec] emit_i callBeforeSleep_i budgetConsume_i callAttemptStart_h callAttemptEnd_h
   callAttemptEndFromOutcome_h handleAbortAttemptEnd_h callStrategy_f stratRecordFailure_f callSleeper_f
-  recordStrategySuccess_s callSleepHandler_f callClassifier_f shouldClassifyResult_f setStop_spec
+  recordStrategySuccess_s callSleepHandler_f shouldClassifyResult_f setStop_spec
   stopWith_spec emitAbortedOnce_spec checkAbort_spec invokeOp_spec buildOutcome_spec abortOutcome_spec
   handleSleepDecision_spec modifyAS_v getRS_v
 
@@ -575,7 +577,7 @@ attribute [local spec] sleepAction_spec
 /-- what `_sync_failure_outcome` returns and leaves behind -/
 def FailOK (u : View) (d : Decision) (o : AOutcome) (v : View) : Prop :=
   o.decision ≠ .success ∧
-  (o.decision = .scheduled → v.mon.deferred = true ∧ o.sleep = v.mon.delay ∧ o.sleep.isSome = true ∧
+  (o.decision = .scheduled → v.mon.deferred = true ∧ o.sleep = v.mon.delay ∧
       o.stop = some .scheduled ∧ v.lastStop = some .scheduled) ∧
   (o.decision ≠ .scheduled → u.mon.deferred = false → v.mon.deferred = false) ∧
   (o.decision = .raise → (d = .raise → hard u.lastStop) → hard o.stop ∧ o.sleep = none ∧ v.lastStop = o.stop) ∧
@@ -663,13 +665,13 @@ def ErrC (cfg : Cfg) (m : St) (t : List (Req × Ans)) (e : Exn) : Prop :=
   (∃ f, e = .libExhausted f ∧ fieldsOk m f = true) ∨
   (e = .libRuntimeError ∧ cfg.maxAttempts = 0 ∧ m.ops = 0)
 
-abbrev errC (cfg : Cfg) : Exn → World → Prop := fun e w => ErrC cfg (cur cfg w.trace) w.trace e
+abbrev errC (cfg : Cfg) : Exn → World → Prop := fun e w => ErrC cfg (view cfg w).mon w.trace e
 
 @[simp] theorem ErrC_of_thrown {cfg : Cfg} {m : St} {t : List (Req × Ans)} {e : Exn} (h : Thrown t e) :
     ErrC cfg m t e := Or.inr (Or.inl h)
 
 theorem ErrC_of_src {cfg : Cfg} {w : World} {e : Exn} (h : Src cfg w e) :
-    ErrC cfg (cur cfg w.trace) w.trace e := by
+    ErrC cfg (view cfg w).mon w.trace e := by
   rcases h with h | ⟨h1, h2⟩
   · exact ErrC_of_thrown h
   · exact Or.inr (Or.inr (Or.inr (Or.inl ⟨h1, h2⟩)))
@@ -738,7 +740,7 @@ theorem errC_exc {cfg : Cfg} {n a : Nat} {e : Exn} {u v : View} {d : Decision} {
     simp only []
     exact ErrC_op hexc (hnsch (by simp [hdec]) hud)
   | scheduled =>
-    obtain ⟨hdef, hsl, hsls, hst, _⟩ := hsch hdec
+    obtain ⟨hdef, hsl, hst, _⟩ := hsch hdec
     right; right; right; right; left
     refine ⟨_, rfl, ?_⟩
     simp [fieldsOk, hops, ha, hat, hr2, hs3, hcause, hr3, hs1, hdef, hst, hsl, hre, hoe]
@@ -770,7 +772,7 @@ theorem errC_res {cfg : Cfg} {n a : Nat} {u v : View} {d : Decision} {o : AOutco
     | some st =>
       cases st <;> simp_all [fieldsOk, hard]
   | scheduled =>
-    obtain ⟨hdef, hsl, hsls, hst, _⟩ := hsch hdec
+    obtain ⟨hdef, hsl, hst, _⟩ := hsch hdec
     right; right; right; right; left
     refine ⟨_, rfl, ?_⟩
     simp [fieldsOk, hops, ha, hat, hr2, hs3, hcause, hr4, hs2, hdef, hst, hsl, hrv, hov]
@@ -782,7 +784,7 @@ theorem pollStep_idle (cfg : Cfg) (m : St) (h : m.pending = false) : pollStep cf
   simp [h]
 
 @[simp] theorem ErrC_of_src' {cfg : Cfg} {w : World} {e : Exn} (h : Src cfg w e) :
-    ErrC cfg (cur cfg w.trace) w.trace e := ErrC_of_src h
+    ErrC cfg (view cfg w).mon w.trace e := ErrC_of_src h
 
 @[simp] theorem ErrC_of_abortish {cfg : Cfg} {m : St} {t : List (Req × Ans)} {e : Exn}
     (h : e ≠ .libAbort → Thrown t e) : ErrC cfg m t e := by
@@ -826,12 +828,12 @@ abbrev attemptPostC (cfg : Cfg) (n : Nat) : PostCond (Option Nat) (.except Exn (
                    | none => Hd (n + 1) (view cfg w)
                    | some x => (view cfg w).mon.succeeded = true ∧ (view cfg w).mon.earlierSuccess = false ∧
                        (view cfg w).mon.opVal = some x⌝,
-       fun e w => ⌜ErrC cfg (cur cfg w.trace) w.trace e⌝⟩
+       fun e w => ⌜ErrC cfg (view cfg w).mon w.trace e⌝⟩
 
 /-- `FailOK` without reference to the view before -/
 def FailOK' (o : AOutcome) (v : View) : Prop :=
   o.decision ≠ .success ∧
-  (o.decision = .scheduled → v.mon.deferred = true ∧ o.sleep = v.mon.delay ∧ o.sleep.isSome = true ∧
+  (o.decision = .scheduled → v.mon.deferred = true ∧ o.sleep = v.mon.delay ∧
       o.stop = some .scheduled ∧ v.lastStop = some .scheduled) ∧
   (o.decision ≠ .scheduled → v.mon.deferred = false) ∧
   (o.decision = .raise → hard o.stop ∧ o.sleep = none ∧ v.lastStop = o.stop)
@@ -877,15 +879,14 @@ theorem deliverCall_exc (cfg : Cfg) (n a : Nat) (e : Exn) (ha : a = n + 1) (u : 
       r.lastResult = u.lastResult) :
     ⦃fun w => ⌜view cfg w = u⌝⦄ deliverCall (determineAction o r a false) (some e) default
     ⦃post⟨fun x w => ⌜x = none ∧ Hd (n + 1) (view cfg w)⌝,
-          fun e' w => ⌜ErrC cfg (cur cfg w.trace) w.trace e'⌝⟩⦄ := by
+          fun e' w => ⌜ErrC cfg (view cfg w).mon w.trace e'⌝⟩⦄ := by
   have hdc := deliverCall_spec cfg u o r a false (some e) default
   mvcgen [hdc]
   · intro h1 h2 h3
     exact ⟨h1, by rw [h3]; exact hrec.next hf h2⟩
   · intro h1 h2 h3
     subst h1
-    have h4 : cur cfg (_ : World).trace = u.mon := congrArg View.mon h3
-    rw [h4]
+    rw [h3]
     exact errC_exc' ha hrec hexc hcause hf hr h2
 
 /-- the end of an attempt of call() that failed with a result -/
@@ -896,15 +897,14 @@ theorem deliverCall_res (cfg : Cfg) (n a : Nat) (ha : a = n + 1) (u : View)
       r.lastResult = u.lastResult) :
     ⦃fun w => ⌜view cfg w = u⌝⦄ deliverCall (determineAction o r a true) none fb
     ⦃post⟨fun x w => ⌜x = none ∧ Hd (n + 1) (view cfg w)⌝,
-          fun e' w => ⌜ErrC cfg (cur cfg w.trace) w.trace e'⌝⟩⦄ := by
+          fun e' w => ⌜ErrC cfg (view cfg w).mon w.trace e'⌝⟩⦄ := by
   have hdc := deliverCall_spec cfg u o r a true none fb
   mvcgen [hdc]
   · intro h1 h2 h3
     exact ⟨h1, by rw [h3]; exact hrec.next hf h2⟩
   · intro h1 h2 h3
     subst h1
-    have h4 : cur cfg (_ : World).trace = u.mon := congrArg View.mon h3
-    rw [h4]
+    rw [h3]
     exact errC_res' ha hrec hcause hf hr h2
 
 /-- `check_abort` when no result failure awaits recording: the monitor does not move -/
@@ -961,7 +961,7 @@ theorem handleException_exc (cfg : Cfg) (tl : Bool) (n : Nat) (e : Exn) (a : Nat
             (view cfg w).mon.recCause = some .exception ∧ (view cfg w).mon.deferred = false ∧
             (d = .raise → hard (view cfg w).lastStop)⌝,
           fun e' w => ⌜Src cfg w e'⌝⟩⦄ := by
-  mvcgen [handleException, handleFailure_spec]
+  mvcgen [handleException, handleFailure_spec, callClassifier_f]
   all_goals ((try subst_vars) <;> (try intros))
   all_goals (try (simp_all +zetaDelta [FErr, CErr]; done))
   rename_i h1 _ _ h3 h4
@@ -984,8 +984,6 @@ theorem callExceptionPath_spec (cfg : Cfg) (a : Nat) (e : Exn) (n : Nat) (u : Vi
   all_goals ((try subst_vars) <;> (try intros))
   all_goals (try clear hdc hex)
   close_call
-  all_goals trace_state
-  all_goals sorry
 
 /-- the `except` ladder around the operation; `e = stuck` when the answer was ill-shaped -/
 theorem callOpHandler_spec (cfg : Cfg) (a : Nat) (e : Exn) (n : Nat) (u : View)
@@ -1031,6 +1029,473 @@ theorem callResultPath_spec (cfg : Cfg) (a x : Nat) (n : Nat) (u : View) (h : Va
   close_call
   all_goals (try (cases hrc : cfg.resultClassifier <;> simp_all +zetaDelta [ValP, resStep, SErr]; done))
   all_goals (try (simp_all +zetaDelta [sameBut, sameButH, hsame, RecP, RecCur, Sync, FailOK, FailOK', pollStep_idle]))
+
+attribute [local spec] callResultPath_spec
+
+theorem callAttempt_spec (cfg : Cfg) (a n : Nat) (u : View) (h : Hd n u) (ha : a = n + 1) :
+    ⦃fun w => ⌜view cfg w = u⌝⦄ callAttempt cfg a ⦃attemptPostC cfg n⦄ := by
+  have hoh := fun e v hv => callOpHandler_spec cfg a e n v hv ha
+  have hrp := fun x v hv => callResultPath_spec cfg a x n v hv ha
+  mvcgen [callAttempt, hoh, hrp]
+  all_goals ((try subst_vars) <;> (try intros))
+  all_goals (try clear hoh hrp)
+  close_call
+  all_goals (try (simp_all +zetaDelta [restore_dummy, Hd, ValP, ExcP, Sync, pollStep_idle, opStep, step]; done))
+
+/-- the fields of the RetryExhaustedError `raise_exhausted_call` makes -/
+def exhFields (cfg : Cfg) (lc : Option EClass) (lr : Option Nat) : ExhaustedFields :=
+  { stop := .maxAttemptsGlobal, attempts := cfg.maxAttempts, lastClass := lc, lastExc := none, lastResult := lr,
+    nextSleep := none }
+
+/-- the loop ran out of attempts -/
+theorem exhausted_errC {cfg : Cfg} {n : Nat} {v : View} {t : List (Req × Ans)} (h : Hd n v)
+    (hn : n = cfg.maxAttempts) :
+    (v.lastCause = some .result → ErrC cfg v.mon t (.libExhausted (exhFields cfg v.lastClass v.lastResult))) ∧
+    (¬ v.lastCause = some .result → ∀ e, v.lastExc = some e → ErrC cfg v.mon t e) ∧
+    (¬ v.lastCause = some .result → v.lastExc = none → ErrC cfg v.mon t .libRuntimeError) := by
+  obtain ⟨hops, ⟨hs1, hs2, hs3, hs4⟩, hfresh, hrec, _, _, hdef, _⟩ := h
+  rcases Nat.eq_zero_or_pos n with h0 | hpos
+  · obtain ⟨f1, f2, f3, f4, f5⟩ := hfresh h0
+    refine ⟨fun hc => ?_, fun _ e he => ?_, fun _ _ => ?_⟩
+    · rw [hs4, f1] at hc; cases hc
+    · rw [hs1, f2] at he; cases he
+    · right; right; right; right; right
+      exact ⟨rfl, by omega, by omega⟩
+  · obtain ⟨hat, hcls, hcs, hce, hcr⟩ := hrec hpos
+    refine ⟨fun hc => ?_, fun hc e he => ?_, fun hc he => ?_⟩
+    · rw [hs4] at hc
+      obtain ⟨r1, r2, r3⟩ := hcr hc
+      right; right; right; right; left
+      refine ⟨_, rfl, ?_⟩
+      simp [fieldsOk, exhFields, hops, ← hn, hat, hs3, hc, hs2, r1, r2, hdef]
+    · rw [hs4] at hc
+      have hexc : v.mon.recCause = some .exception := by
+        cases hcc : v.mon.recCause with
+        | none => simp [hcc] at hcs
+        | some c => cases c <;> simp_all
+      obtain ⟨r1, r2, r3⟩ := hce hexc
+      rw [hs1, r1] at he
+      exact ErrC_op he hdef
+    · rw [hs4] at hc
+      have hexc : v.mon.recCause = some .exception := by
+        cases hcc : v.mon.recCause with
+        | none => simp [hcc] at hcs
+        | some c => cases c <;> simp_all
+      obtain ⟨r1, r2, r3⟩ := hce hexc
+      rw [hs1, r1] at he
+      rw [he] at r2
+      cases r2
+
+theorem raiseExhaustedCall_spec (cfg : Cfg) (n : Nat) (u : View) (h : Hd n u) (hn : n = cfg.maxAttempts) :
+    ⦃fun w => ⌜view cfg w = u⌝⦄ raiseExhaustedCall cfg
+    ⦃post⟨fun _ _ => ⌜False⌝, fun e w => ⌜ErrC cfg (view cfg w).mon w.trace e⌝⟩⦄ := by
+  have hx := fun t => exhausted_errC (t := t) h hn
+  mvcgen [raiseExhaustedCall, emitMaxAttemptsExceeded]
+  all_goals (try (intros; exact cfg))
+  all_goals ((try subst_vars) <;> (try intros))
+  all_goals (try (simp_all +zetaDelta [exhFields]; done))
+
+/-- how call() ends: the returned value is the last invocation's, accepted as success, and no
+    earlier invocation was; every exception is one the monitor accepts -/
+abbrev callPost (cfg : Cfg) : PostCond Nat (.except Exn (.arg World .pure)) :=
+  post⟨fun x w => ⌜(view cfg w).mon.succeeded = true ∧ (view cfg w).mon.earlierSuccess = false ∧
+          (view cfg w).mon.opVal = some x⌝,
+       fun e w => ⌜ErrC cfg (view cfg w).mon w.trace e⌝⟩
+
+theorem callLoop_spec (cfg : Cfg) : ∀ (fuel a n : Nat) (u : View), Hd n u → a = n + 1 →
+    n + fuel = cfg.maxAttempts →
+    ⦃fun w => ⌜view cfg w = u⌝⦄ callLoop cfg fuel a ⦃callPost cfg⦄ := by
+  intro fuel
+  induction fuel with
+  | zero =>
+    intro a n u h ha hn
+    have hx := raiseExhaustedCall_spec cfg n u h (by omega)
+    mvcgen [callLoop, hx]
+    all_goals (intros; simp_all)
+  | succ f ih =>
+    intro a n u h ha hn
+    have hat := callAttempt_spec cfg a n u h ha
+    mvcgen [callLoop, hat]
+    all_goals ((try subst_vars) <;> (try intros))
+    all_goals (try (simp_all +zetaDelta; done))
+    rename_i s hs
+    exact ih (n + 1 + 1) (n + 1) (view cfg s) (by simpa using hs) rfl (by omega) s rfl
+
+/-- the view of a freshly initialised run -/
+def view0 : View := ⟨{}, none, none, none, none, none, 0⟩
+
+theorem Hd.init : Hd 0 view0 := by
+  simp [Hd, view0, Sync, Fresh]
+
+theorem initState_spec (cfg : Cfg) :
+    ⦃fun w => ⌜cur cfg w.trace = {}⌝⦄ initState
+    ⦃post⟨fun _ w => ⌜view cfg w = view0⌝, fun _ _ => ⌜False⌝⟩⦄ := by
+  mvcgen [initState]
+  all_goals (simp_all +zetaDelta [view, view0])
+
+/-- `Retry.call` (and its async twin) -/
+theorem runCall_spec (cfg : Cfg) :
+    ⦃fun w => ⌜cur cfg w.trace = {}⌝⦄ runCall cfg ⦃callPost cfg⦄ := by
+  have hloop := callLoop_spec cfg cfg.maxAttempts 1 0 view0 Hd.init rfl (by omega)
+  have hi := initState_spec cfg
+  mvcgen [runCall, hloop, hi]
+
+/-! ### policy level -/
+open Policy
+
+/-- `w'` arises from `w` by exchanges whose request kinds satisfy `K`; the retry state is untouched -/
+def PExt (K : Kind → Bool) (w w' : World) : Prop :=
+  (∃ δ, w'.trace = δ ++ w.trace ∧ ∀ x ∈ δ, K x.1.kind = true) ∧ w'.rs = w.rs ∧ w'.attempts = w.attempts
+
+theorem PExt.refl (K : Kind → Bool) (w : World) : PExt K w w := ⟨⟨[], rfl, by simp⟩, rfl, rfl⟩
+
+theorem PExt.trans {K : Kind → Bool} {w₁ w₂ w₃ : World} (h₁ : PExt K w₁ w₂) (h₂ : PExt K w₂ w₃) : PExt K w₁ w₃ := by
+  obtain ⟨⟨δ₁, e₁, k₁⟩, r₁, a₁⟩ := h₁
+  obtain ⟨⟨δ₂, e₂, k₂⟩, r₂, a₂⟩ := h₂
+  refine ⟨⟨δ₂ ++ δ₁, by simp [e₂, e₁], ?_⟩, by rw [r₂, r₁], by rw [a₂, a₁]⟩
+  intro x hx
+  rcases List.mem_append.mp hx with h | h
+  · exact k₂ x h
+  · exact k₁ x h
+
+theorem PExt.step {K : Kind → Bool} (w : World) (r : Req) (a : Ans) (answers : List Ans) (now : Nat)
+    (bud : Budget.St) (br : Breaker.St) (xc : XCtx) (hk : K r.kind = true) :
+    PExt K w { w with answers := answers, now := now, trace := (r, a) :: w.trace, budget := bud, breaker := br,
+                      xc := xc } :=
+  ⟨⟨[(r, a)], rfl, by simp [hk]⟩, rfl, rfl⟩
+
+theorem PExt.frame {K : Kind → Bool} (w : World) (br : Breaker.St) (xc : XCtx) :
+    PExt K w { w with breaker := br, xc := xc } := ⟨⟨[], rfl, by simp⟩, rfl, rfl⟩
+
+abbrev pextPost (K : Kind → Bool) (w0 : World) : PostCond α (.except Exn (.arg World .pure)) :=
+  post⟨fun _ w => ⌜PExt K w0 w⌝, fun e w => ⌜PExt K w0 w ∧ Thrown w.trace e⌝⟩
+
+syntax "pext_chain" : tactic
+macro_rules
+  | `(tactic| pext_chain) => `(tactic| first
+      | assumption
+      | exact PExt.refl _ _
+      | exact PExt.frame _ _ _
+      | exact PExt.step _ _ _ _ _ _ _ _ (by assumption)
+      | (refine PExt.trans (by assumption) ?_; pext_chain))
+
+macro "pext_close" : tactic => `(tactic| all_goals (
+  (try subst_vars) <;> (try intros) <;>
+  first
+    | assumption
+    | pext_chain
+    | (simp_all; done)
+    | exact ⟨by pext_chain, by simp_all⟩
+    | skip))
+
+theorem PExt.thrown {K : Kind → Bool} {w w' : World} {e : Exn} (h : PExt K w w') (ht : Thrown w.trace e) :
+    Thrown w'.trace e := by
+  obtain ⟨⟨δ, e1, _⟩, _, _⟩ := h
+  rw [e1]
+  exact Thrown.append δ ht
+
+/-- from "this procedure only adds exchanges of kinds `K`" to "this invariant, closed under such
+    additions, is preserved" — with the provenance of a thrown exception -/
+theorem inv_of_pext {α : Type} {x : M α} (K : Kind → Bool) (I : World → Prop)
+    (hx : ∀ w0, ⦃fun w => ⌜PExt K w0 w⌝⦄ x ⦃post⟨fun _ w => ⌜PExt K w0 w⌝, fun e w => ⌜PExt K w0 w ∧ Thrown w.trace e⌝⟩⦄)
+    (hI : ∀ w w', PExt K w w' → I w → I w') :
+    ⦃fun w => ⌜I w⌝⦄ x ⦃post⟨fun _ w => ⌜I w⌝, fun e w => ⌜I w ∧ Thrown w.trace e⌝⟩⦄ := by
+  apply triple_of_run
+  intro w hw
+  have := adequacy (hx w) w (PExt.refl K w)
+  split <;> simp_all
+  · exact hI _ _ this hw
+  · exact hI _ _ this.1 hw
+
+section policyLeaves
+variable (K : Kind → Bool) (w0 : World) (cfg : Cfg)
+
+theorem ask_pext (r : Req) (hk : K r.kind = true) (hop : isOp r = false) :
+    ⦃fun w => ⌜PExt K w0 w⌝⦄ ask r ⦃pextPost K w0⦄ := by
+  mvcgen [ask]
+  all_goals ((try subst_vars) <;> (try intros))
+  all_goals first
+    | exact PExt.trans (by assumption) (PExt.step _ _ _ _ _ _ _ _ hk)
+    | exact ⟨PExt.trans (by assumption) (PExt.step _ _ _ _ _ _ _ _ hk), Thrown.head _ _ _ _ hop⟩
+    | exact ⟨PExt.trans (by assumption) (PExt.step _ _ _ _ _ _ _ _ hk), Thrown.stuck _⟩
+
+theorem askMetric_pext (hm : K .metric = true) (ev : Event) (a s : Nat) (t : Tags) :
+    ⦃fun w => ⌜PExt K w0 w⌝⦄ askMetric ev a s t ⦃pextPost K w0⦄ := by
+  have h := ask_pext K w0 (.metric ev a s t) hm rfl
+  mvcgen [askMetric, h]
+  pext_close
+
+theorem askLog_pext (hl : K .log = true) (ev : Event) (a s : Nat) (t : Tags) (ra : Option Int) :
+    ⦃fun w => ⌜PExt K w0 w⌝⦄ askLog ev a s t ra ⦃pextPost K w0⦄ := by
+  have h := ask_pext K w0 (.log ev a s t ra) hl rfl
+  mvcgen [askLog, h]
+  pext_close
+
+theorem swallow_pext (e : Exn) :
+    ⦃fun w => ⌜PExt K w0 w ∧ Thrown w.trace e⌝⦄ swallowException e ⦃pextPost K w0⦄ := by
+  mvcgen [swallowException]
+  pext_close
+
+theorem emitBreakerEvent_pext (hm : K .metric = true) (hl : K .log = true) (ev : Option Event) (st : CState)
+    (k : Option EClass) :
+    ⦃fun w => ⌜PExt K w0 w⌝⦄ emitBreakerEvent cfg ev st k ⦃pextPost K w0⦄ := by
+  have h1 := askMetric_pext K w0 hm
+  have h2 := askLog_pext K w0 hl
+  have h3 := swallow_pext K w0
+  mvcgen [emitBreakerEvent, h1, h2, h3]
+  pext_close
+
+/-- the breaker rejected the call (newest-first log) -/
+def Rej (t : List (Req × Ans)) : Prop := rejected t = true
+
+theorem Rej.cons (x : Req × Ans) {t : List (Req × Ans)} (h : Rej t) : Rej (x :: t) := by
+  unfold Rej rejected at *
+  simp only [List.any_cons, h, Bool.or_true]
+
+theorem Rej.append (δ : List (Req × Ans)) {t : List (Req × Ans)} (h : Rej t) : Rej (δ ++ t) := by
+  induction δ with
+  | nil => exact h
+  | cons x δ ih => exact Rej.cons x ih
+
+theorem breakerAllow_pext (ha : K .breakerAllow = true) (bc : Breaker.Cfg) :
+    ⦃fun w => ⌜PExt K w0 w⌝⦄ breakerAllow bc
+    ⦃post⟨fun d w => ⌜PExt K w0 w ∧ (d.1 = false → Rej w.trace)⌝, fun _ _ => ⌜False⌝⟩⦄ := by
+  mvcgen [breakerAllow]
+  all_goals ((try subst_vars) <;> (try intros))
+  all_goals (refine ⟨PExt.trans (by assumption) (PExt.step _ _ _ _ _ _ _ _ ha), ?_⟩)
+  all_goals (intro h; simp [Rej, rejected, h])
+
+theorem checkBreaker_pext (hm : K .metric = true) (hl : K .log = true) (ha : K .breakerAllow = true) :
+    ⦃fun w => ⌜PExt K w0 w⌝⦄ checkBreaker cfg
+    ⦃post⟨fun _ w => ⌜PExt K w0 w⌝, fun e w => ⌜PExt K w0 w ∧ (Rej w.trace ∨ Thrown w.trace e)⌝⟩⦄ := by
+  have h1 := breakerAllow_pext K w0 ha
+  have h2 := fun (d : Bool) (ev : Option Event) (st : CState) (k : Option EClass) =>
+    inv_of_pext K (fun w => PExt K w0 w ∧ (d = false → Rej w.trace))
+      (fun w1 => emitBreakerEvent_pext K w1 cfg hm hl ev st k)
+      (fun w w' h hw => ⟨PExt.trans hw.1 h, fun hd => by
+        obtain ⟨⟨δ, e1, _⟩, _, _⟩ := h
+        rw [e1]; exact Rej.append δ (hw.2 hd)⟩)
+  mvcgen [checkBreaker, h1, h2]
+  all_goals ((try subst_vars) <;> (try intros))
+  all_goals (try (simp_all; done))
+
+macro "pext_close'" : tactic => `(tactic| all_goals (
+  (try subst_vars) <;> (try intros) <;>
+  first
+    | assumption
+    | pext_chain
+    | (simp_all; done)
+    | exact ⟨by pext_chain, Thrown.stuck _⟩
+    | exact ⟨by pext_chain, by assumption⟩
+    | (refine PExt.trans (by assumption) ?_; exact PExt.step _ _ _ _ _ _ _ _ (by assumption))
+    | skip))
+
+theorem recordSuccess_pext (hm : K .metric = true) (hl : K .log = true) (hs : K .breakerSuccess = true) :
+    ⦃fun w => ⌜PExt K w0 w⌝⦄ Policy.recordSuccess cfg ⦃pextPost K w0⦄ := by
+  have h2 := emitBreakerEvent_pext K w0 cfg hm hl
+  mvcgen [Policy.recordSuccess, h2]
+  pext_close'
+
+theorem recordCancel_pext (hc : K .breakerCancel = true) :
+    ⦃fun w => ⌜PExt K w0 w⌝⦄ Policy.recordCancel cfg ⦃pextPost K w0⦄ := by
+  mvcgen [Policy.recordCancel]
+  pext_close'
+
+theorem recordFailure_pext (hm : K .metric = true) (hl : K .log = true) (hf : K .breakerFailure = true)
+    (k : EClass) :
+    ⦃fun w => ⌜PExt K w0 w⌝⦄ Policy.recordFailure cfg k ⦃pextPost K w0⦄ := by
+  have h2 := emitBreakerEvent_pext K w0 cfg hm hl
+  mvcgen [Policy.recordFailure, h2]
+  pext_close'
+
+theorem ensureSettled_pext (hc : K .breakerCancel = true) :
+    ⦃fun w => ⌜PExt K w0 w⌝⦄ ensureSettled cfg ⦃pextPost K w0⦄ := by
+  have h := recordCancel_pext K w0 cfg hc
+  mvcgen [ensureSettled, h]
+  pext_close'
+
+theorem initCtx_pext : ⦃fun w => ⌜PExt K w0 w⌝⦄ initCtx ⦃pextPost K w0⦄ := by
+  mvcgen [initCtx]
+  pext_close'
+
+theorem handleExhaustedCall_pext (hm : K .metric = true) (hl : K .log = true) (hf : K .breakerFailure = true)
+    (e : Exn) :
+    ⦃fun w => ⌜PExt K w0 w⌝⦄ handleExhaustedCall cfg e ⦃pextPost K w0⦄ := by
+  have h := recordFailure_pext K w0 cfg hm hl hf
+  mvcgen [handleExhaustedCall, h]
+  pext_close'
+
+theorem callClassifier_pext (hc : K .classify = true) (e : Exn) :
+    ⦃fun w => ⌜PExt K w0 w⌝⦄ callClassifier e ⦃pextPost K w0⦄ := by
+  have h := ask_pext K w0 (.classify e.ref) hc rfl
+  mvcgen [callClassifier, h]
+  pext_close'
+
+theorem classifyForBreaker_pext (hc : K .classify = true) (e : Exn) :
+    ⦃fun w => ⌜PExt K w0 w⌝⦄ classifyForBreaker cfg e ⦃pextPost K w0⦄ := by
+  have h := callClassifier_pext K w0 hc
+  mvcgen [classifyForBreaker, h]
+  pext_close'
+
+/-- with a retry component (`on_attempt_end` hooks are the retry loop's business) -/
+theorem handleExceptionCall_pext (hret : cfg.hasRetry = true) (hm : K .metric = true) (hl : K .log = true)
+    (hf : K .breakerFailure = true) (hc : K .classify = true) (e : Exn) (b : Bool) :
+    ⦃fun w => ⌜PExt K w0 w⌝⦄ handleExceptionCall cfg e b ⦃pextPost K w0⦄ := by
+  have h1 := classifyForBreaker_pext K w0 cfg hc
+  have h2 := recordFailure_pext K w0 cfg hm hl hf
+  unfold handleExceptionCall
+  simp only [hret, Bool.not_true, Bool.false_and, Bool.false_eq_true, if_false]
+  mvcgen [h1, h2]
+  pext_close'
+
+theorem handleAbortCall_pext (hret : cfg.hasRetry = true) (hc : K .breakerCancel = true) (e : Exn) :
+    ⦃fun w => ⌜PExt K w0 w⌝⦄ handleAbortCall cfg e ⦃pextPost K w0⦄ := by
+  have h := recordCancel_pext K w0 cfg hc
+  unfold handleAbortCall
+  simp only [hret, Bool.not_true, Bool.false_eq_true, if_false]
+  mvcgen [h]
+  pext_close'
+
+end policyLeaves
+
+/-! ### what survives the policy wrapper's own exchanges -/
+
+/-- kinds of the exchanges the policy wrapper makes besides re-classifying the final exception -/
+def polK : Kind → Bool
+  | .metric | .log | .breakerAllow | .breakerSuccess | .breakerFailure | .breakerCancel => true
+  | _ => false
+
+/-- … and with that classification -/
+def polCK : Kind → Bool
+  | .classify => true
+  | k => polK k
+
+theorem polK_inert (k : Kind) (h : polK k = true) : inertK k = true := by
+  cases k <;> simp_all [polK, inertK]
+
+theorem cur_append_inert (cfg : Cfg) (δ t : List (Req × Ans)) (h : ∀ x ∈ δ, inertK x.1.kind = true) :
+    cur cfg (δ ++ t) = cur cfg t := by
+  induction δ with
+  | nil => rfl
+  | cons x δ ih =>
+    have hx := h x (by simp)
+    have := ih (fun y hy => h y (by simp [hy]))
+    simp [step_inert _ _ _ hx, this]
+
+theorem view_pext (cfg : Cfg) {w w' : World} (h : PExt polK w w') : view cfg w' = view cfg w := by
+  obtain ⟨⟨δ, e, k⟩, hr, ha⟩ := h
+  simp only [view, e, cur_append_inert cfg δ _ (fun x hx => polK_inert _ (k x hx)), hr, ha]
+
+/-- the part of the monitor the policy wrapper's re-classification cannot move -/
+def keep (m : St) : Nat × Option Exn × Option Nat × Bool × Bool × Bool × Bool :=
+  (m.ops, m.opExc, m.opVal, m.succeeded, m.earlierSuccess, m.deferred, m.badDecision)
+
+theorem step_polCK (cfg : Cfg) (s : St) (x : Req × Ans) (h : polCK x.1.kind = true) :
+    keep (step cfg s x) = keep s := by
+  obtain ⟨r, a⟩ := x
+  cases r <;> simp_all [polCK, polK, Req.kind, step, keep]
+  cases a <;> simp [faultBy]
+  split <;> simp [record]
+
+theorem keep_pext (cfg : Cfg) {w w' : World} (h : PExt polCK w w') :
+    keep (cur cfg w'.trace) = keep (cur cfg w.trace) := by
+  obtain ⟨⟨δ, e, k⟩, _, _⟩ := h
+  rw [e]
+  clear e
+  induction δ with
+  | nil => rfl
+  | cons x δ ih =>
+    have := ih (fun y hy => k y (by simp [hy]))
+    simp only [List.cons_append, cur_cons]
+    rw [step_polCK cfg _ x (k x (by simp)), this]
+
+/-- how `Policy.call` may end -/
+def Fin (cfg : Cfg) : Except Exn Nat → World → Prop
+  | .ok x, w => (view cfg w).mon.succeeded = true ∧ (view cfg w).mon.earlierSuccess = false ∧
+      (view cfg w).mon.opVal = some x
+  | .error e, w => Rej w.trace ∨ ErrC cfg (view cfg w).mon w.trace e
+
+theorem Fin.pext {cfg : Cfg} {r : Except Exn Nat} {w w' : World} (h : PExt polK w w') (hf : Fin cfg r w) :
+    Fin cfg r w' := by
+  have hv := view_pext cfg h
+  obtain ⟨⟨δ, e, k⟩, _, _⟩ := h
+  cases r with
+  | ok x => simpa [Fin, hv] using hf
+  | error ex =>
+    simp only [Fin, hv] at hf ⊢
+    rcases hf with hf | hf
+    · left; rw [e]; exact Rej.append δ hf
+    · right
+      rcases hf with h1 | h1 | h1
+      · exact Or.inl h1
+      · exact Or.inr (Or.inl (by rw [e]; exact Thrown.append δ h1))
+      · exact Or.inr (Or.inr h1)
+
+theorem Fin.pextC {cfg : Cfg} {ex : Exn} {w w' : World} (h : PExt polCK w w') (hx : ex.isExhausted = false)
+    (hf : Fin cfg (.error ex) w) : Fin cfg (.error ex) w' := by
+  have hk := keep_pext cfg h
+  obtain ⟨⟨δ, e, k⟩, _, _⟩ := h
+  simp only [keep, Prod.mk.injEq] at hk
+  obtain ⟨k1, k2, k3, k4, k5, k6, k7⟩ := hk
+  simp only [Fin, view] at hf ⊢
+  rcases hf with hf | hf
+  · left; rw [e]; exact Rej.append δ hf
+  · right
+    rcases hf with h1 | h1 | h1 | h1 | h1 | h1
+    · left; simpa [opRaised, k2, k6] using h1
+    · exact Or.inr (Or.inl (by rw [e]; exact Thrown.append δ h1))
+    · exact Or.inr (Or.inr (Or.inl h1))
+    · exact Or.inr (Or.inr (Or.inr (Or.inl ⟨h1.1, by rw [k7]; exact h1.2⟩)))
+    · obtain ⟨f, hf1, _⟩ := h1
+      subst hf1
+      simp [Exn.isExhausted] at hx
+    · exact Or.inr (Or.inr (Or.inr (Or.inr (Or.inr ⟨h1.1, h1.2.1, by rw [k1]; exact h1.2.2⟩))))
+
+theorem Fin.thrown {cfg : Cfg} {e : Exn} {w : World} (h : Thrown w.trace e) : Fin cfg (.error e) w :=
+  Or.inr (ErrC_of_thrown h)
+
+/-- generalisation of `inv_of_pext` to any statement about the thrown exception -/
+theorem inv_of_pext' {α : Type} {x : M α} (K : Kind → Bool) (I : World → Prop) (E : Exn → World → Prop)
+    (hx : ∀ w0, ⦃fun w => ⌜PExt K w0 w⌝⦄ x ⦃post⟨fun _ w => ⌜PExt K w0 w⌝, fun e w => ⌜PExt K w0 w ∧ E e w⌝⟩⦄)
+    (hI : ∀ w w', PExt K w w' → I w → I w') :
+    ⦃fun w => ⌜I w⌝⦄ x ⦃post⟨fun _ w => ⌜I w⌝, fun e w => ⌜I w ∧ E e w⌝⟩⦄ := by
+  apply triple_of_run
+  intro w hw
+  have := adequacy (hx w) w (PExt.refl K w)
+  split <;> simp_all
+  · exact hI _ _ this hw
+  · exact hI _ _ this.1 hw
+
+theorem cur_pext (cfg : Cfg) {w w' : World} (h : PExt polK w w') (h0 : cur cfg w.trace = {}) :
+    cur cfg w'.trace = {} := by
+  have := congrArg View.mon (view_pext cfg h)
+  simpa [view, h0] using this
+
+/-- the admitted part of `Policy.call` with a retry component -/
+theorem callAdmitted_spec (cfg : Cfg) (hret : cfg.hasRetry = true) :
+    ⦃fun w => ⌜cur cfg w.trace = {}⌝⦄ callAdmitted cfg
+    ⦃post⟨fun x w => ⌜Fin cfg (.ok x) w⌝, fun e w => ⌜Fin cfg (.error e) w⌝⟩⦄ := by
+  have hcb := inv_of_pext' polK (fun w => cur cfg w.trace = {}) (fun e w => Rej w.trace ∨ Thrown w.trace e)
+    (fun w0 => checkBreaker_pext polK w0 cfg rfl rfl rfl) (fun w w' h h0 => cur_pext cfg h h0)
+  have hrun := runCall_spec cfg
+  have hrs := fun r => inv_of_pext polK (Fin cfg r) (fun w0 => recordSuccess_pext polK w0 cfg rfl rfl rfl)
+    (fun w w' h hf => hf.pext h)
+  have hrc := fun r => inv_of_pext polK (Fin cfg r) (fun w0 => recordCancel_pext polK w0 cfg rfl)
+    (fun w w' h hf => hf.pext h)
+  have hab := fun r e => inv_of_pext polK (Fin cfg r) (fun w0 => handleAbortCall_pext polK w0 cfg hret rfl e)
+    (fun w w' h hf => hf.pext h)
+  have hex := fun r e => inv_of_pext polK (Fin cfg r)
+    (fun w0 => handleExhaustedCall_pext polK w0 cfg rfl rfl rfl e) (fun w w' h hf => hf.pext h)
+  have hec := fun (e : Exn) (hx : e.isExhausted = false) (b : Bool) =>
+    inv_of_pext polCK (Fin cfg (.error e))
+      (fun w0 => handleExceptionCall_pext polCK w0 cfg hret rfl rfl rfl rfl e b)
+      (fun w w' h hf => hf.pextC h hx)
+  unfold callAdmitted
+  simp only [hret, if_true]
+  mvcgen [callLadder, hcb, hrun, hrs, hrc, hab, hex, hec]
+  all_goals ((try subst_vars) <;> (try intros))
+  all_goals (try clear hcb hrun hrs hrc hab hex hec)
+  all_goals (try (simp_all +zetaDelta [Fin, Fin.thrown]; done))
   all_goals trace_state
   all_goals sorry
 
